@@ -8,7 +8,10 @@ state, finiteness, positivity of exponential-type prices, non-negative variances
 sqrt(max(variance, 0)), requested dtype; instruments: all buffers one shape, re-simulation with a
 different path count / horizon replaces every buffer; horizons that are not multiples of dt (below, at and above half a step, on the default and
 other time grids, passed to simulate() or as the maturity of a derivative): (n_paths, n_steps + 1) with n_steps the minimum integer such that
-n_steps * dt >= horizon, on every primary class.
+n_steps * dt >= horizon, on every primary class; every way of asking for a dtype (constructor argument, to(dtype), to(dtype=...), double() float64() float()
+float32() half() float16() bfloat16()) under BOTH global default dtypes, before the first simulate() and on a simulated instrument; user classes
+derived from the eight primary classes that override the documented hook default_init_state (floats, 0-dim tensors, computed from an attribute
+set in an overridden __init__): simulated without init_state the first column is the default of the derived class.
 correspondence with the system model (Model/InstrSys.lean, op "instr_sys", theorems Lemmas/C11Buffers.lean): every instrument session
 (repeated simulate() with changing n_paths / horizon on every primary class and dtype, user register_buffer calls in between that
 overwrite a simulated buffer with another shape) is replayed in the model; after every call the buffers' names, dtypes, shapes, the
@@ -313,6 +316,209 @@ def check(ctx):
                 inst.register_buffer(bname, torch.ones(*bshape, dtype=getattr(torch, SYS.DT[bdt])))
                 ctx.stats["instrument:user_register_buffer"] += 1
                 record(["prim_reg", 0, bname, bdt, bshape])
+    # ---------------- every way of asking for a dtype, under BOTH global default dtypes: the constructor argument (incl. None = the global
+    # default), to(dtype) / to(dtype=...), and the casting aliases double() float64() float() float32() half() float16() bfloat16() -- on
+    # all eight primary classes, before the first simulate() and on an instrument that has been simulated (the existing buffers are cast, the
+    # next simulate() keeps the requested dtype).  Whatever the spelling and whatever torch.get_default_dtype() happens to be, every buffer
+    # (and the derived volatility / variance) comes back in the requested dtype.  The same sessions go to the system model (op instr_sys).
+    def open_session(inst_, base_name, ctor_short, ambient_short):
+        keep_, out_ = [], []
+        scen_ = {"ambient": ambient_short, "prims": [[base_name, ctor_short]], "derivs": [], "cmds": [], "forms": []}
+        sessions.append((scen_, (SYS.isys_observe_single(torch, inst_, keep_), out_)))
+
+        def rec_(cmd, form=None, r=("ok", None)):
+            o_, ob_ = SYS.isys_observe_single(torch, inst_, keep_)
+            scen_["cmds"].append(cmd)
+            scen_["forms"].append(form)
+            out_.append(("op", r, o_, ob_))
+        return rec_
+
+    REQUESTS = [("to(torch.float64)", "f64", lambda s_: s_.to(torch.float64)), ("to(dtype=torch.float64)", "f64", lambda s_: s_.to(dtype=torch.float64)),
+                ("to(torch.float32)", "f32", lambda s_: s_.to(torch.float32)), ("to(dtype=torch.float32)", "f32", lambda s_: s_.to(dtype=torch.float32)),
+                ("to(torch.float16)", "f16", lambda s_: s_.to(torch.float16)), ("to(dtype=torch.bfloat16)", "bf16", lambda s_: s_.to(dtype=torch.bfloat16)),
+                ("double()", "f64", lambda s_: s_.double()), ("float64()", "f64", lambda s_: s_.float64()),
+                ("float()", "f32", lambda s_: s_.float()), ("float32()", "f32", lambda s_: s_.float32()),
+                ("half()", "f16", lambda s_: s_.half()), ("float16()", "f16", lambda s_: s_.float16()), ("bfloat16()", "bf16", lambda s_: s_.bfloat16())]
+    CTORS = [("constructor dtype=torch.float32", "f32"), ("constructor dtype=torch.float64", "f64"), ("constructor dtype=None", None)]
+
+    def dtype_session(name, amb, how, want_short, request, order):
+        """one instrument: [simulate,] request, simulate, simulate with another size; False when the backend cannot simulate in that dtype"""
+        ctor_short = want_short if request is None else None
+        inst = SYS.make(torch, I, name, ctor_short)
+        want = SYS.tdt(torch, want_short if want_short is not None else amb)
+        case = {"instrument": name, "global_default_dtype": DT_NAME[amb], "dtype_requested_by": how, "requested": str(want).replace("torch.", ""), "order": order}
+        ctx.case(case, True, tag="dtype-request")
+        ctx.stats[f"dtype-request:{how}"] += 1
+        ctx.traces += 1
+        rec_ = open_session(inst, name, ctor_short, amb)
+        key = f"instrument:dtype-request:{how}"
+
+        def verify(stage, shape=None):
+            bufs = dict(inst.named_buffers())
+            if shape is not None and "spot" not in bufs:
+                ctx.fail("after simulate() the instrument has no spot buffer", case | {"stage": stage}, key=key + ":no-spot")
+            for bn, b in bufs.items():
+                if b.dtype != want:
+                    ctx.fail("a buffer of the instrument is not in the requested dtype (the dtype was requested by " + how + ", global default dtype "
+                             + DT_NAME[amb] + ")", case | {"stage": stage, "buffer": bn}, key=key, detail={"buffer_dtype": str(b.dtype), "instrument.dtype": str(inst.dtype)})
+                    return False
+                if shape is not None and tuple(b.shape) != shape:
+                    ctx.fail("after simulate() a buffer does not have shape (n_paths, n_steps)", case | {"stage": stage, "buffer": bn},
+                             key=f"instrument:{name}:buffer-shape", detail={"shape": list(b.shape), "expected": list(shape)})
+                    return False
+            for prop in ("volatility", "variance"):
+                if prop in bufs or "spot" not in bufs:
+                    continue
+                try:
+                    v_ = getattr(inst, prop)
+                except AttributeError:
+                    continue
+                if v_.dtype != want:
+                    ctx.fail(f"the derived {prop} of the instrument is not in the requested dtype", case | {"stage": stage}, key=key + ":" + prop, detail=str(v_.dtype))
+                    return False
+            return True
+
+        def simulate(stage):
+            npaths, T = g.choice([1, 2, 3]), g.choice([2, 3, 5])
+            try:
+                inst.simulate(n_paths=npaths, time_horizon=(T - 1) / 250)
+            except Exception as e:  # noqa
+                r = SYS.isys_kind_of_error(e)
+                if r[0] == "backend":
+                    ctx.stats["dtype-request:backend_unsupported"] += 1
+                else:
+                    ctx.fail("simulate() raised after a dtype request", case | {"stage": stage}, key=f"instrument:{name}:simulate-error", detail=repr(e)[:200])
+                return None
+            rec_(["prim_sim", 0, npaths, T])
+            return (npaths, T)
+        if order == "after simulate":
+            # no dtype requested so far: the documented default is the global default dtype
+            shape = simulate("simulated before the request")
+            if shape is None:
+                return
+            for bn, b in inst.named_buffers():
+                if request is not None and b.dtype != SYS.tdt(torch, amb):
+                    ctx.fail("no dtype requested: a simulated buffer is not in the global default dtype", case | {"buffer": bn}, key="instrument:dtype-request:none",
+                             detail=str(b.dtype))
+        if request is not None:
+            try:
+                request(inst)
+            except Exception as e:  # noqa
+                ctx.fail("a dtype request raised", case, key=key + ":error", detail=repr(e)[:200])
+                return
+            rec_(["prim_to", 0, ["dtype", want_short]], how)
+            if not verify("right after the request"):
+                return
+        for stage in ("first simulate() after the request", "second simulate() after the request"):
+            shape = simulate(stage)
+            if shape is None or not verify(stage, shape):
+                return
+    DT_NAME = {"f32": "float32", "f64": "float64"}
+    try:
+        for amb in ("f32", "f64"):
+            torch.set_default_dtype(SYS.tdt(torch, amb))
+            for name in prims:
+                for how, want_short, request in REQUESTS:
+                    for order in ("before simulate", "after simulate"):
+                        dtype_session(name, amb, how, want_short, request, order)
+                for how, want_short in CTORS:
+                    dtype_session(name, amb, how, want_short, None, "before simulate")
+    finally:
+        torch.set_default_dtype(torch.float32)
+    # ---------------- user-defined instruments derived from the eight primary classes that override the documented hooks of the base-class
+    # machinery: `default_init_state` ("init_state: if None (default), it uses the default value (see default_init_state)") as a tuple of
+    # floats, as 0-dim tensors, or computed from an attribute set in an overridden __init__ (which also chooses other parameters and another
+    # dt).  Simulated without init_state -- directly, through a derivative, again after an explicit request -- the first column of every
+    # state buffer is the documented default of the DERIVED class; an explicit init_state still wins.
+    OTHER = {"BrownianStock": (100.0,), "MertonJumpStock": (100.0,), "KouJumpStock": (2.5,), "LocalVolatilityStock": (100.0,), "HestonStock": (100.0, 0.09),
+             "RoughBergomiStock": (2.5, 0.09), "CIRRate": (0.07,), "VasicekRate": (-0.01,)}
+    STATE_BUFS = {"HestonStock": ["spot", "variance"], "RoughBergomiStock": ["spot", "variance"]}
+
+    def derive(name, hook, state):
+        base = getattr(I, name)
+        lv = name == "LocalVolatilityStock"
+        if hook == "default_init_state":
+            class Derived(base):
+                if lv:
+                    def __init__(self, **kw):
+                        super().__init__(lambda t, s: torch.full_like(s, 0.2), **kw)
+
+                @property
+                def default_init_state(self):
+                    return state
+        elif hook == "default_init_state (0-dim tensors)":
+            class Derived(base):
+                if lv:
+                    def __init__(self, **kw):
+                        super().__init__(lambda t, s: torch.full_like(s, 0.2), **kw)
+
+                @property
+                def default_init_state(self):
+                    # (in the dtype the instrument simulates in: which dtype wins when a tensor state of ANOTHER dtype meets an instrument
+                    # without a dtype of its own is not part of the property)
+                    return tuple(torch.tensor(x, dtype=torch.get_default_dtype() if self.dtype is None else self.dtype) for x in state)
+        else:
+            class Derived(base):
+                def __init__(self, quote=state, **kw):
+                    kw.setdefault("dt", 1 / 365)
+                    if lv:
+                        super().__init__(lambda t, s: torch.full_like(s, 0.3), **kw)
+                    else:
+                        super().__init__(**kw)
+                    self.quote = quote
+
+                @property
+                def default_init_state(self):
+                    return tuple(self.quote)
+        Derived.__name__ = Derived.__qualname__ = "Derived" + name
+        return Derived
+    HOOKS = ["default_init_state", "default_init_state (0-dim tensors)", "__init__ + default_init_state"]
+    for name in prims:
+        for hi, hook in enumerate(HOOKS):
+            for dname in ("float32", "float64") if hi == 0 else (g.choice(["float32", "float64", None]),):
+                dtype = None if dname is None else getattr(torch, dname)
+                want = torch.get_default_dtype() if dtype is None else dtype
+                state = OTHER[name] if hi == 0 else tuple(x * g.choice([1.0, 2.0, 0.5]) for x in OTHER[name])
+                inst = derive(name, hook, state)(dtype=dtype)
+                shipped = SYS.make(torch, I, name, None).default_init_state
+                rec_ = open_session(inst, name, SHORT[dname], "f32")
+                bufnames = STATE_BUFS.get(name, ["spot"])
+                rounds = [("no init_state", None, False), ("no init_state, through a derivative", None, True), ("explicit init_state", tuple(float(x) for x in shipped), False),
+                          ("no init_state, after an explicit one", None, g.chance(0.5))]
+                for ri, (what, init, via_derivative) in enumerate(rounds):
+                    npaths, k_steps = (1, 0) if (ri == 0 and name != "RoughBergomiStock") else (g.choice([1, 3]), g.choice([1, 2, 5]))
+                    hor = k_steps * inst.dt
+                    case = {"instrument": f"user class derived from {name}", "overridden": hook, "derived_default_init_state": list(state), "dtype": str(dname),
+                            "round": what, "n_paths": npaths, "horizon_in_steps": k_steps, "via_derivative": via_derivative}
+                    ctx.case(case, True, tag="subclass")
+                    ctx.stats[f"subclass:{hook}"] += 1
+                    ctx.traces += 1
+                    if via_derivative:
+                        st, v, _ = call_impl(I.EuropeanOption(inst, maturity=hor).simulate, n_paths=npaths, init_state=init)
+                    else:
+                        st, v, _ = call_impl(inst.simulate, n_paths=npaths, time_horizon=hor, init_state=init)
+                    if st != "ok":
+                        ctx.fail("simulate() of a user class derived from a primary instrument raised", case, key=f"instrument:subclass:{name}:simulate-error", detail=v)
+                        break
+                    if abs(inst.dt - 1 / 250) < 1e-12:
+                        rec_(["prim_sim", 0, npaths, k_steps + 1])      # (the system model's grid is the default one)
+                    bufs = dict(inst.named_buffers())
+                    for bn, b in bufs.items():
+                        if tuple(b.shape) != (npaths, k_steps + 1) or b.dtype != want or not bool(b.isfinite().all()):
+                            ctx.fail("a user class derived from a primary instrument: a simulated buffer is not a finite (n_paths, n_steps) series of the instrument's dtype",
+                                     case | {"buffer": bn}, key=f"instrument:subclass:{name}:buffer", detail={"shape": list(b.shape), "dtype": str(b.dtype)})
+                    expect = state if init is None else init
+                    for bn, w in zip(bufnames, expect):
+                        wq = float(torch.tensor(float(w), dtype=want))
+                        first = [float(x) for x in bufs[bn][:, 0].tolist()] if bn in bufs else None
+                        # exact, except for the Heston price: generate_heston evolves log S and returns exp(log S), and exp(log(S0)) is S0 only up
+                        # to the rounding of the two functions (relative error <= (1 + |log S0|) eps each way; S0 = 100.0 comes back one ulp off)
+                        tol = 0.0      # exact for every class (Heston returned exp(log(S0)), one ulp off, until "fix: a Heston price series starts at the initial state itself")
+                        if first is None or any(not abs(x - wq) <= tol for x in first):
+                            ctx.fail("a user class derived from a primary instrument overrides " + hook + ": simulated without init_state, the first column is not the "
+                                     "documented default initial state of the class (or an explicit init_state does not win)", case | {"buffer": bn},
+                                     key=f"instrument:subclass:{'default' if init is None else 'explicit'}-init-state:first-column",
+                                     detail={"first_column": first if first is None else first[:3], "expected": wq, "default_of_the_shipped_class": [float(x) for x in shipped]})
     # the sessions against the system model: shapes, replacement (generation numbers vs tensor identity), record of the last simulate
     try:
         souts = ctx.driver([SYS.isys_request(sc) for sc, _ in sessions])
@@ -471,5 +677,7 @@ def check(ctx):
         rule="nine generators x parameter sweeps (non-default initial states, high vol-of-vol / tiny variance, zero and high jump intensities) x "
              "float32/float64; random-number engines (antithetic: shape, dtype, closure under negation; Sobol/Box-Muller: equals the Box-Muller "
              "transform of the Sobol points) and generators / instruments driven by them; named-tuple volatility/variance; eight primary instruments with repeated simulate() under changing path counts / horizons (multiples of dt and "
-             "fractional numbers of steps on several time grids, directly and through a derivative's maturity) / initial states; every case "
+             "fractional numbers of steps on several time grids, directly and through a derivative's maturity) / initial states; 13 spellings of a dtype request "
+             "+ 3 constructor forms x 8 classes x global default float32 / float64 x before / after simulate (also replayed in the system model); user classes derived from "
+             "the 8 classes overriding default_init_state (3 forms) simulated without / with init_state, directly and through a derivative; every case "
              "non-trivial; distinct = sha1 of canonical case")
